@@ -15,8 +15,10 @@ from the checker.  python ast of /repo/lib/**/*.py  ->  coq/Generated/RaiseSites
      whether every call of that checker function inside the checker is so enclosed (CaughtByCaller), or the reviewed
      whitelist (Reviewed), or Uncaught.  Module-level code of lib modules gives ImportTime rows.
 
-Fail-closed: an unknown syntactic shape, a lib file in neither list, a stale dead-raise / override entry, a missing
-anchor raise SystemExit (broken tie); a stale whitelist entry becomes an Uncaught row; a raise whose class cannot be determined is Unclassified and caught by nothing;
+Fail-closed: an unknown syntactic shape or a missing anchor stop the translation, and the table then consists of one
+Uncaught row with the message (see main); a dead-raise entry whose function changed its number of such raise sites is
+revoked; a raise whose class cannot be determined is Unclassified and caught by nothing;
+a new file under lib/ is summarised (or, under lib/check/, scanned for rows) like the others;
 anything else that finds no handler is Uncaught.  The Coq theorem C01_every_own_error_is_caught rejects both.
 This file is part of the trusted base; notes/C01.md says what the table does NOT establish."""
 import ast
@@ -27,14 +29,17 @@ import os
 REPO = os.environ.get('VERIF_REPO') or '/repo'
 
 # ------------------------------------------------------------------------------------------------ reviewed tables
-# modules whose functions get a may-raise summary
-LIB_FILES = ['lib/__init__.py', 'lib/intexpr.py', 'lib/gettext.py', 'lib/ling.py', 'lib/moparser.py', 'lib/polib4us.py',
-             'lib/xml.py', 'lib/encodings.py', 'lib/iconv.py', 'lib/domains.py', 'lib/misc.py', 'lib/tags.py',
-             'lib/paths.py', 'lib/terminal.py', 'lib/check/msgrepr.py', 'lib/strformat/__init__.py',
-             'lib/strformat/c.py', 'lib/strformat/python.py', 'lib/strformat/pybrace.py', 'lib/strformat/perlbrace.py']
-# modules whose calls into the above are the rows of the table
-CHECK_FILES = ['lib/cli.py', 'lib/check/__init__.py', 'lib/check/msgformat/__init__.py', 'lib/check/msgformat/c.py',
-               'lib/check/msgformat/python.py', 'lib/check/msgformat/pybrace.py', 'lib/check/msgformat/perlbrace.py']
+# CHECKER files: their calls into the other modules are the rows of the table.  Every other file under lib/ is SUMMARISED
+# (its functions get a may-raise summary); a new file is therefore summarised unless it lies under lib/check/, which is the
+# conservative side: what it raises travels to its callers.
+def is_checker_file(rel):
+    return rel == 'lib/cli.py' or (rel.startswith('lib/check/') and rel != 'lib/check/msgrepr.py')
+
+
+LIB_FILES, CHECK_FILES = [], []      # filled by load()
+# files that must exist (the tables below speak about them)
+EXPECTED_FILES = ['lib/cli.py', 'lib/check/__init__.py', 'lib/check/msgformat/__init__.py', 'lib/intexpr.py', 'lib/gettext.py', 'lib/ling.py',
+                  'lib/moparser.py', 'lib/polib4us.py', 'lib/xml.py', 'lib/encodings.py', 'lib/iconv.py', 'lib/misc.py', 'lib/tags.py']
 
 # classes defined outside lib/ that the code names through a module-level alias; value = base class (a builtin)
 EXTERNAL_CLASSES = {
@@ -94,7 +99,8 @@ CALLEE_OVERRIDES = {
 }
 
 # raise sites reviewed as unreachable or as independent of the checked file: (file, function, class) -> (number of such sites in the function, why).
-# They are listed in the table (Dead) and excluded from the summaries.  A different number of sites revokes the entry.
+# They are listed in the table (Dead) and excluded from the summaries.  A different number of sites in the function revokes the
+# entry: they are all live again (and reported under "revoked_dead" in RaiseSites.json).
 DEAD_RAISES = {
     ('lib/intexpr.py', 'BaseEvaluator._visit', 'NotImplementedError'): (1, 'defensive: every ast node class built by create_parser has a _visit_<name> method in each evaluator (C04 model: pyeval total)'),
     ('lib/intexpr.py', 'BaseEvaluator._visit_compare', 'NotImplementedError'): (1, 'defensive: expr_cmp builds ast.Compare with exactly one operator'),
@@ -330,10 +336,10 @@ def load():
         for f in files:
             if f.endswith('.py'):
                 found.add(os.path.relpath(os.path.join(root, f), REPO))
-    listed = set(LIB_FILES) | set(CHECK_FILES)
-    if found != listed or set(LIB_FILES) & set(CHECK_FILES):
-        raise SystemExit('gen_raisesites: files of lib/ and the translator\'s lists differ: unlisted %s, missing %s'
-                         % (sorted(found - listed), sorted(listed - found)))
+    if set(EXPECTED_FILES) - found:
+        raise SystemExit('gen_raisesites: expected files are missing: %s' % sorted(set(EXPECTED_FILES) - found))
+    LIB_FILES[:] = sorted(f for f in found if not is_checker_file(f))
+    CHECK_FILES[:] = sorted(f for f in found if is_checker_file(f))
     for rel in LIB_FILES:
         MODS[rel] = Mod(rel, True)
     for rel in CHECK_FILES:
@@ -983,8 +989,8 @@ def count_dead_sites():
                 for cls in own_raises(kind, n, handler, Scope(f, f.cls, {})):
                     DEAD_COUNT[dead_key(f, cls)] = DEAD_COUNT.get(dead_key(f, cls), 0) + 1
     for k, (cnt, _) in DEAD_RAISES.items():
-        if DEAD_COUNT.get(k, 0) != cnt:
-            raise SystemExit('gen_raisesites: DEAD_RAISES entry %r expects %d site(s), found %d: review it' % (k, cnt, DEAD_COUNT.get(k, 0)))
+        if DEAD_COUNT.get(k, 0) != cnt:        # the review was about another state of the function: all its sites are live again
+            REVOKED_DEAD.add(k)
 
 
 def own_raises(kind, n, handler, scope):
@@ -1005,8 +1011,11 @@ def own_raises(kind, n, handler, scope):
     return []
 
 
+REVOKED_DEAD = set()
+
+
 def is_dead(func, cls):
-    return func.mod.is_lib and dead_key(func, cls) in DEAD_RAISES
+    return func.mod.is_lib and dead_key(func, cls) in DEAD_RAISES and dead_key(func, cls) not in REVOKED_DEAD
 
 
 def flows(func, selfclass, world):
@@ -1238,6 +1247,27 @@ def q(s):
 
 
 def main(emit):
+    """A failure of the translator must fail C01 and nothing else: the other properties share gen_tables.py, so instead of
+    aborting the whole regeneration the table is replaced by a single Uncaught row that carries the message."""
+    try:
+        translate(emit)
+    except (SystemExit, Exception) as exc:   # noqa: BLE001
+        msg = '%s: %s' % (type(exc).__name__, exc)
+        emit('RaiseSites.v', '(* generated by tools/gen/gen_raisesites.py: THE TRANSLATOR FAILED *)\n'
+             'From Coq Require Import NArith List String.\nFrom I18n Require Import Model.Handlers.\nImport ListNotations.\n'
+             'Local Open Scope string_scope.\nLocal Open Scope N_scope.\n\n'
+             'Definition checker_sites : list site := [\n  {| s_file := "tools/gen/gen_raisesites.py"; s_line := 0; s_func := "main"; s_callee := "translator";\n'
+             '     s_class := "SystemExit"; s_disp := Uncaught %s |}\n].\n'
+             'Definition lib_raise_sites : list raise_site := [].\nDefinition implicit_methods : list implicit_method := [].\n'
+             'Definition assert_site_count : N := 0.\n' % q(msg))
+        emit('RaiseSites.json', json.dumps({
+            'rows': 1, 'by_disposition': {'Uncaught': 1}, 'reviewed': [], 'known_defects': [], 'unclassified_raises': [], 'lib_raise_sites': 0,
+            'dead_raise_sites': 0, 'implicit_methods_nonempty': [], 'asserts': 0,
+            'uncaught': [{'file': 'tools/gen/gen_raisesites.py', 'line': 0, 'func': 'main', 'callee': 'translator', 'class': 'SystemExit',
+                          'origin': 'tools/gen/gen_raisesites.py', 'disp': ['Uncaught', 'the translator failed: ' + msg]}]}, indent=1, sort_keys=True) + '\n')
+
+
+def translate(emit):
     load()
     verify_plural_forms_data()
     verify_installation_data()
@@ -1251,13 +1281,14 @@ def main(emit):
     for rel, src in IMPLICIT_ANCHORS:
         if (rel, src) not in SEEN_IMPLICIT:
             raise SystemExit('gen_raisesites: implicit raiser %r no longer found in %s: review IMPLICIT' % (src, rel))
-    for k in list(WHITELIST) + list(KNOWN_DEFECTS):
-        if k not in USED_WHITELIST:        # a stale entry fails the theorem too, next to whatever else the change uncovered
+    # A whitelist entry that matches no uncaught row any more is harmless (the code got more careful): reported in the JSON only.
+    # A recorded defect that is no longer there must be un-recorded (here and in Props/C01.v): that fails the theorem.
+    stale_whitelist = [list(k) for k in WHITELIST if k not in USED_WHITELIST]
+    for k in KNOWN_DEFECTS:
+        if k not in USED_WHITELIST:
             table.append({'file': k[0], 'line': 0, 'func': k[1], 'callee': k[2], 'class': k[3], 'origin': 'tools/gen/gen_raisesites.py',
-                          'disp': ('Uncaught', 'stale WHITELIST / KNOWN_DEFECTS entry of the generator: there is no such uncaught row any more; review it')})
-    stale = [k for k in CALLEE_OVERRIDES if k not in USED_OVERRIDES]
-    if stale:
-        raise SystemExit('gen_raisesites: stale CALLEE_OVERRIDES entries: %r' % stale)
+                          'disp': ('Uncaught', 'stale KNOWN_DEFECTS entry of the generator: there is no such uncaught row any more; remove it')})
+    stale_overrides = [list(k) for k in CALLEE_OVERRIDES if k not in USED_OVERRIDES]      # harmless: nothing resolves through them
     table.sort(key=lambda r: (r['file'], r['line'], r['func'], r['callee'], r['class']))
     seen, uniq = set(), []
     for r in table:
@@ -1310,7 +1341,9 @@ def main(emit):
         'known_defects': [r for r in table if r['disp'][0] == 'KnownDefect'],
         'unclassified_raises': ['%s:%d %s %s' % (k[0], k[1], k[2], show(k[3])) for k, st in sorted(RAISE_SITES.items()) if st[0] == 'Unclassified'],
         'lib_raise_sites': len(RAISE_SITES), 'dead_raise_sites': sum(1 for st in RAISE_SITES.values() if st[0] == 'Dead'),
-        'implicit_methods_nonempty': [b for a, b, c in ims if not c], 'asserts': len(ASSERTS)}, indent=1, sort_keys=True) + '\n')
+        'implicit_methods_nonempty': [b for a, b, c in ims if not c], 'asserts': len(ASSERTS),
+        'stale_whitelist': stale_whitelist, 'stale_overrides': stale_overrides, 'revoked_dead': sorted(list(k) for k in REVOKED_DEAD)},
+        indent=1, sort_keys=True) + '\n')
 
 
 if __name__ == '__main__':
